@@ -385,6 +385,10 @@ class _SegDom(Domain):
                     s.add('moof-moved')
                 if cn == 'atom.encode':
                     s.add('encoded')
+        # atom.children[i:i] = boxes: the same insertion written as a slice assignment
+        if isinstance(st, ast.Assign) and any(isinstance(t_, ast.Subscript) and isinstance(t_.slice, ast.Slice)
+                                              and norm(t_.value).endswith('children') for t_ in st.targets):
+            s.add('moof-moved')
         # removing a top-level box moves the moof whenever that box is stored in front of it (a sidx
         # usually is: `styp sidx moof mdat`) - where it is stored is not known to the handler
         if isinstance(st, ast.Delete) and any(isinstance(t, ast.Attribute) and norm(t.value) == 'atom'
@@ -503,7 +507,30 @@ def r03_4_5(rep: Report) -> None:
     from .c20 import lin
     ins = [n for n in ast.walk(fn) if isinstance(n, ast.Call) and (call_name(n) or '').endswith('children.insert')
            and len(n.args) == 2]
-    if not ins:
+    # the same insertion as a slice assignment: children[M:M] = boxes, with M advanced by len(boxes) only
+    slice_ins = [n for n in ast.walk(fn) if isinstance(n, ast.Assign) and len(n.targets) == 1
+                 and isinstance(n.targets[0], ast.Subscript) and isinstance(n.targets[0].slice, ast.Slice)
+                 and norm(n.targets[0].value).endswith('children')]
+    for si in slice_ins:
+        sl = si.targets[0].slice
+        key = f'emsg index `{norm(sl.lower) if sl.lower is not None else ""}:`'
+        moof_names = {norm(a_.targets[0]) for a_ in ast.walk(fn) if isinstance(a_, ast.Assign) and len(a_.targets) == 1
+                      and isinstance(a_.targets[0], ast.Name) and "index('moof')" in norm(a_.value)}
+        good = sl.lower is not None and sl.upper is not None and sl.step is None and norm(sl.lower) == norm(sl.upper) \
+            and norm(sl.lower) in moof_names
+        if good:
+            m_ = norm(sl.lower)
+            for a_ in ast.walk(fn):
+                if isinstance(a_, ast.AugAssign) and norm(a_.target) == m_:
+                    if not (isinstance(a_.op, ast.Add) and norm(a_.value) == f'len({norm(si.value)})'):
+                        good = False
+        if good:
+            rep.ok('R03.5', c, 'emsg inserted immediately before moof', f'children[{norm(sl.lower)}:{norm(sl.upper)}] = ..')
+        else:
+            rep.fail('R03.5', c, 'emsg inserted immediately before moof',
+                     f'`{short(si, 60)}` does not insert at the index of the moof box (advanced only by the number of '
+                     'boxes inserted before)', si)
+    if not ins and not slice_ins:
         raise AnalysisError('generate_media_segment: no emsg insertion found')
     for call in ins:
         idx_e = subst_locals(fn, call.args[0], allow_calls=True)
